@@ -21,6 +21,7 @@ import (
 //	return-named        return with explicit results mentioning a named result of the function
 //	switch-init-tag     switch with an init statement and a tag that is not a plain identifier or literal
 //	switch-default-order  switch whose default clause is not the last clause
+//	switch-case-list    case clause with several expressions: a non-first operator expression (tag) / any second condition (no tag)
 //	label-in-case       labelled statement directly inside a case clause
 //	named-result-zero   function with named results that does not start by assigning each of them
 //	for-init-only       `for init; ; {}`: the init statement is executed again on every iteration
@@ -170,6 +171,20 @@ func c1ClassifyRegion(src string) string {
 				cc := c.(*ast.CaseClause)
 				if cc.List == nil && i != len(x.Body.List)-1 {
 					set("switch-default-order")
+				}
+				for j, e := range cc.List {
+					if j == 0 {
+						continue
+					}
+					if x.Tag == nil {
+						set("switch-case-list")
+						continue
+					}
+					switch c1Unparen(e).(type) {
+					case *ast.Ident, *ast.BasicLit:
+					default:
+						set("switch-case-list")
+					}
 				}
 			}
 		case *ast.CaseClause:
